@@ -65,6 +65,18 @@ def table_results(table, roots):
     return out
 
 
+def emission_table(prog, cl):
+    """Decision table of reconstruct's per-token closure.  The decision may be delegated to a loop-free bool method of the reconstructor
+    (`self.lacks_required_line_break(flag, token)`): such helpers are expanded into the table, everything else stays an opaque observation."""
+    REC_ = "pasfmt_core::defaults::reconstructor::"
+    helpers = set()
+    for c in cl.calls():
+        hb = prog.body(norm(c.t.get("resolved") or c.callee or ""))
+        if hb is not None and hb.npath.startswith(REC_) and not hb.loops() and str(c.t.get("dst_ty", "")) == "bool":
+            helpers.add(hb.npath.split("::")[-1])
+    return Table(prog, cl, inline=1, only=tuple(sorted(helpers))) if helpers else Table(prog, cl)
+
+
 def line_break_test_of_safety_net(prog, rep, R):
     """The `is there already a line break in the kept whitespace` test of the ignored arm of reconstruct looks for CR as well as LF
     (a lone CR ends a line comment in the lexer; testing LF only inserted a line ending inside verbatim regions of CR files)."""
@@ -73,7 +85,13 @@ def line_break_test_of_safety_net(prog, rep, R):
     if not rep.check(cl is not None, R, "anchor:reconstruct-closure", "reconstruct closure not found"):
         return
     tests = []
+    fam = [cl]
     for c in cl.calls():
+        hb = prog.body(norm(c.t.get("resolved") or c.callee or ""))
+        if hb is not None and hb.npath.startswith("pasfmt_core::defaults::reconstructor::") and hb not in fam:
+            fam.append(hb)
+    for c in [c for x in fam for c in x.calls()]:
+        cl = c.body
         if (c.callee or "") == "core::str::contains" and "get_leading_whitespace(" in canon(cl, c.args[0]):
             chars = set()
             a = c.args[1]
@@ -322,7 +340,7 @@ def check_c02(prog, rep, tier, cfg):
         if rep.check(len(fk) == 1, R, "anchor:flag-upvar", "captured flag not found among the closure's captures %s" % ups):
             flag = "arg1.%d" % fk[0]
             try:
-                tb = Table(prog, cl)
+                tb = emission_table(prog, cl)
             except Exception as e:  # loops or too many paths: fail closed
                 tb = None
                 rep.fail(R, "safety-net-table", "emission closure is not a loop-free classifier any more: %s" % e)
@@ -368,6 +386,11 @@ def check_c02(prog, rep, tier, cfg):
                         badrows.append(("ignored-arm", sorted(map(str, cons)), pushes[:2]))
                 else:
                     zero = [v for k, v in cd.items() if re.match(r"Eq\(arg2\.1\.newlines_before,0\)", k)]
+                    if not zero:
+                        # `newlines_before > 0` / `newlines_before != 0`: the same test, the other way round
+                        gt = [v for k, v in cd.items() if re.match(r"(Gt|Ne)\(arg2\.1\.newlines_before,0\)", k)]
+                        if gt:
+                            zero = [0 if gt[0] != 0 else ("not", 0)]
                     if not zero:
                         # `match newlines_before { 0 => .., n => .. }`: the counter itself is the tested value
                         direct = [v for k, v in cd.items() if k == "arg2.1.newlines_before"]
